@@ -219,6 +219,21 @@ func c06Keeper(t *testing.T, e *c06Run, rnd *rand.Rand) {
 			} else {
 				// withdraw; the single account holds the entire supply, so pc == ps is reachable
 				bal := bank.GetBalance(ctx, who, pool.PoolCoinDenom).Amount.BigInt()
+				// in part of the pools some shares are farmed first: farmed pool coins sit in the module
+				// account but are still outstanding shares, a withdrawal must be priced against all of them
+				if pi%3 == 1 && !lastOp && bal.Sign() > 0 && rnd.Intn(4) == 0 {
+					f := c06Frac(bal, 1, int64(2+rnd.Intn(4)), 0)
+					if f.Sign() > 0 {
+						func() {
+							defer func() { _ = recover() }()
+							if err := k.Farm(ctx, liqtypes.NewMsgFarm(appID, pool.Id, who, sdk.NewCoin(pool.PoolCoinDenom, c06I(f)))); err == nil {
+								rec.Count("keeper_farmed_before_withdraw", 1)
+								ops = append(ops, fmt.Sprintf("farm %s pool coins", f))
+							}
+						}()
+						bal = bank.GetBalance(ctx, who, pool.PoolCoinDenom).Amount.BigInt()
+					}
+				}
 				if bal.Sign() == 0 {
 					break
 				}
